@@ -1,7 +1,7 @@
 #!/bin/bash
 cd /verif
-declare -A P=( [1]="C07" [2]="C07" [3]="C07" [4]="C07" [5]="C10" [6]="C10 C07" [7]="C07" [8]="C07" [9]="C07" [10]="C07 C08" [11]="C08" [12]="C09" [13]="C16" [14]="C05" [15]="C14" [16]="C18" [17]="C07" [18]="C07 C17" [19]="C07" [20]="C07" [21]="C07" [22]="C07" [23]="C07" [24]="C07 C08" [25]="C07 C08" [26]="C08" [27]="C08" [28]="C09" [29]="C07" [30]="C07 C08" [31]="C08" [32]="C05" [33]="C05" [34]="C14" [35]="C15" [36]="C15" [37]="C08" [38]="C08" [39]="C09" [40]="C10 C07" [41]="C10" [42]="C07" [43]="C07" [44]="C07" [45]="C07" [46]="C08 C07" [47]="C07" [48]="C07 C08" [49]="C14" [50]="C15" [51]="C14" [52]="C05" [53]="C16" [54]="C18" )
-for k in $(seq ${NEU_FROM:-1} ${NEU_TO:-54}); do
+declare -A P=( [1]="C07" [2]="C07" [3]="C07" [4]="C07" [5]="C10" [6]="C10 C07" [7]="C07" [8]="C07" [9]="C07" [10]="C07 C08" [11]="C08" [12]="C09" [13]="C16" [14]="C05" [15]="C14" [16]="C18" [17]="C07" [18]="C07 C17" [19]="C07" [20]="C07" [21]="C07" [22]="C07" [23]="C07" [24]="C07 C08" [25]="C07 C08" [26]="C08" [27]="C08" [28]="C09" [29]="C07" [30]="C07 C08" [31]="C08" [32]="C05" [33]="C05" [34]="C14" [35]="C15" [36]="C15" [37]="C08" [38]="C08" [39]="C09" [40]="C10 C07" [41]="C10" [42]="C07" [43]="C07" [44]="C07" [45]="C07" [46]="C08 C07" [47]="C07" [48]="C07 C08" [49]="C14" [50]="C15" [51]="C14" [52]="C05" [53]="C16" [54]="C18" [55]="C13" [56]="C13" [57]="C13" [58]="C13" [59]="C13" [60]="C20 C13" [61]="C20 C13" [62]="C20 C13" [63]="C20 C13" [64]="C13" [65]="C10 C20" [66]="C20" [67]="C20" [68]="C13 C14" [69]="C13 C14" [70]="C13" )
+for k in $(seq ${NEU_FROM:-1} ${NEU_TO:-70}); do
   d=/tmp/neu_$k; rm -rf $d; mkdir -p $d; rsync -a --exclude target --exclude .git ${NEU_BASE:-/repo}/ $d/
   (cd $d && patch -p1 -s < /verif/neutral/N$k/patch.diff) || { echo "NEU $k APPLY-FAILED"; continue; }
   for p in ${P[$k]}; do
